@@ -1,6 +1,7 @@
 import FqModel.Proto
 import FqModel.Dump
 import FqModel.C10Json
+import FqModel.Ansi
 /-!
   driver for C10.  Ops (observation after TAB; line feeds of the observed text are U+001E):
 
@@ -15,7 +16,7 @@ import FqModel.C10Json
   tree   lb= ab= L= root=<hex>                  rows of a whole-tree dump (one root buffer): cell truth only
   json   <mode c|i|t> <json text>               what fq prints for the value
 -/
-open FqModel FqModel.Proto FqModel.Dump FqModel.C10Json
+open FqModel FqModel.Proto FqModel.Dump FqModel.C10Json FqModel.Ansi
 
 def rsep : Char := Char.ofNat 0x1e
 
@@ -501,6 +502,65 @@ def stepNTree (ws : List String) (obs : String) : String :=
     | _, _ => "BADOP ntree roots/vals"
   | _, _, _, _, _, _ => "BADOP ntree args"
 
+/-! ### colour -/
+
+def charsOfBytes (bs : List UInt8) : List Char := bs.map fun b => Char.ofNat b.toNat
+
+def natChars (n : Nat) : List Char := formatBase 10 n
+
+/-- the codes the harness wraps byte `b` in (harness byteCode, family 0 = short, 1 = combined) -/
+def hSet (fam : Nat) (b : UInt8) : List Char :=
+  let n := b.toNat
+  if fam = 0 then
+    if n % 3 = 0 then natChars (30 + n % 8) else if n % 3 = 1 then ['1'] else natChars (n % 10)
+  else
+    if n % 3 = 0 then natChars (30 + n % 8) ++ [';', '4']
+    else if n % 3 = 1 then ['1', ';'] ++ natChars (40 + n % 8)
+    else natChars n
+
+def hReset (fam : Nat) (b : UInt8) : List Char :=
+  let n := b.toNat
+  if fam = 0 then
+    if n % 3 = 0 then ['3', '9'] else if n % 3 = 1 then ['2', '2'] else ['0']
+  else
+    if n % 3 = 0 then "39;24".toList else if n % 3 = 1 then "22;49".toList else ['0']
+
+def stepWriterColour (hex : Bool) (fam w start : Nat) (chunks : List (List UInt8)) (obs : String) : String :=
+  if w = 0 then "BADOP width" else
+  let cellMax := (chunks.flatten.map fun b => (colourAscii (hSet fam) (hReset fam) b).length).foldl max 0
+  if obs == "panic" then
+    -- asciiwriter.go:30 sizes its line buffer for 11 bytes per cell
+    if !hex ∧ cellMax > 11 then s!"KNOWN asciiwriter-colour-buffer cell of {cellMax} bytes"
+    else "PROPFAIL the writer panics"
+  else
+  match bytesOfHex obs with
+  | none => "BADOP observation"
+  | some ob =>
+    let impl := charsOfBytes ob
+    let model := if hex then hexRunF (colourHex (hSet fam) (hReset fam)) w start 0 chunks
+                 else asciiRunF (colourAscii (hSet fam) (hReset fam)) w start 0 chunks
+    let plain := if hex then hexRun w start 0 chunks else asciiRun w start 0 chunks
+    let div := if model == impl then "" else " ;DIVERGE model differs"
+    if strip impl != plain then s!"PROPFAIL stripping the escape sequences does not give the colourless text{div}"
+    else if !(stateAfter false impl == false) then s!"PROPFAIL an escape sequence is left open{div}"
+    else if div.isEmpty then "OK" else "DIVERGE coloured text differs from the model"
+
+def stepAnsi (stop : Nat) (s : List UInt8) (obs : String) : String :=
+  match words obs with
+  | [l, h] =>
+    match l.toNat?, bytesOfHex h with
+    | some len, some sl =>
+      if stop = 0 then "BADOP stop" else
+      let cs := charsOfBytes s
+      let slice := charsOfBytes sl
+      let div := if ansiLen cs = len ∧ ansiSlice0 stop cs = slice then "" else
+        s!" ;DIVERGE model={ansiLen cs} {hexOfBytes ((ansiSlice0 stop cs).map fun c => UInt8.ofNat c.toNat)}"
+      if len ≠ (strip cs).length then s!"PROPFAIL Len is not the number of visible characters{div}"
+      else if len > stop ∧ strip slice ≠ (strip cs).take stop then s!"PROPFAIL Slice does not show the first {stop} visible characters{div}"
+      else if div.isEmpty then "OK" else "DIVERGE" ++ (div.drop 9).toString
+    | _, _ => "BADOP ansi observation"
+  | _ => "BADOP ansi observation"
+
 /-! ### numbers -/
 
 def stepFmt (ws : List String) (obs : String) : String :=
@@ -537,17 +597,60 @@ def stepRange (ws : List String) (obs : String) : String :=
     else if div.isEmpty then "OK" else s!"DIVERGE model={String.ofList model}"
   | _ => "BADOP range args"
 
+/-- largest power of `b` that is `≤ n` (n ≥ 1) and the next one -/
+def powAround (b n : Nat) : Nat × Nat :=
+  let ps := (List.range 66).map (b ^ ·)
+  let le := (ps.filter (· ≤ n)).foldl max 1
+  (le, le * b)
+
+/-- `mathx.DigitsInBase` is specified by `digitsNeeded` (integer digit count, monotone —
+    Props.C10.digitsNeeded_monotone).  Deviations of the float-logarithm implementation:
+    * one less at an exact power: harmless (Props.C10.digits_quirk_harmless), accepted;
+    * one more just below a power for n ≥ 2^44 (float rounding): a wider column, accepted;
+    * one less just ABOVE a power for n ≥ 2^48: the address n-1 does not fit — known finding. -/
 def stepDigits (ws : List String) (obs : String) : String :=
   match ws.mapM String.toNat?, obs.toNat? with
   | some [b, n], some got =>
     if b < 2 ∨ b > 36 then "BADOP base" else
     let want := digitsNeeded b n
-    -- the address column must hold every address below n (dump.go:355 passes the stop byte)
     let needBelow := if n = 0 then want else digitsNeeded b (n - 1)
-    if got < needBelow then s!"PROPFAIL DigitsInBase({n},{b})={got} cannot hold the address {n - 1}"
-    else if got = want ∨ (got + 1 = want ∧ isPow b n) then "OK"
+    let (pLe, pGt) := powAround b n
+    let closeLe := (n - pLe) * 2 ^ 44 ≤ pLe
+    let closeGt := (pGt - n) * 2 ^ 44 ≤ pGt
+    if got = want then "OK"
+    else if got + 1 = want ∧ n = pLe then "OK"
+    else if got = want + 1 ∧ closeGt ∧ n ≥ 2 ^ 44 then "OK"
+    else if got + 1 = want ∧ closeLe ∧ n ≥ 2 ^ 48 ∧ got < needBelow then
+      s!"KNOWN digitsinbase-float-huge DigitsInBase({n},{b})={got} cannot hold the address {n - 1}"
+    else if got < needBelow then s!"PROPFAIL DigitsInBase({n},{b})={got} cannot hold the address {n - 1}"
     else s!"DIVERGE model={want}"
   | _, _ => "BADOP digits args"
+
+def parseSeg (s : String) : Option (Nat × Nat) :=
+  match s.splitOn ":" with
+  | [a, v] => do pure (← a.toNat?, ← v.toNat?)
+  | _ => none
+
+/-- every n in [0, hi): the implementation's value as runs; by monotonicity of `digitsNeeded` a run
+    [a, e) with value v is right iff it is right at both ends -/
+def stepDigitsRLE (ws : List String) (obs : String) : String :=
+  match ws.mapM String.toNat?, (obs.splitOn ",").mapM parseSeg with
+  | some [b, hi], some segs =>
+    if b < 2 ∨ b > 36 then "BADOP base" else
+    let ends := (segs.drop 1).map (·.1) ++ [hi]
+    let runs := segs.zip ends
+    if segs.head?.map (·.1) ≠ some 0 then "BADOP first run" else
+    let bad := runs.filterMap fun ((a, v), e) =>
+      if e ≤ a then some s!"empty run at {a}" else
+      let last := e - 1
+      if digitsNeeded b a = v ∧ digitsNeeded b last = v then none
+      else if digitsNeeded b a = v ∧ isPow b last ∧ digitsNeeded b last = v + 1
+          ∧ (last = a ∨ digitsNeeded b (last - 1) = v) then none       -- exact power, one less: harmless
+      else some s!"DigitsInBase on [{a},{e}) = {v}, digit counts {digitsNeeded b a}..{digitsNeeded b last}"
+    match bad with
+    | [] => "OK"
+    | m :: _ => s!"PROPFAIL {m}"
+  | _, _ => "BADOP digitsrle args"
 
 /-! ### JSON -/
 
@@ -579,10 +682,23 @@ def stepC10 (op obs : String) : String :=
     | some w, some s, some chunks => stepAsciiw w s chunks obs
     | _, _, _ => "BADOP asciiw args"
   | ["colw", spec] => stepColw spec obs
+  | ["hexwc", f, w, s, ch] =>
+    match f.toNat?, w.toNat?, s.toNat?, parseChunks ch with
+    | some f, some w, some s, some chunks => stepWriterColour true f w s chunks obs
+    | _, _, _, _ => "BADOP hexwc args"
+  | ["asciiwc", f, w, s, ch] =>
+    match f.toNat?, w.toNat?, s.toNat?, parseChunks ch with
+    | some f, some w, some s, some chunks => stepWriterColour false f w s chunks obs
+    | _, _, _, _ => "BADOP asciiwc args"
+  | ["ansi", st, h] =>
+    match st.toNat?, bytesOfHex h with
+    | some st, some bs => stepAnsi st bs obs
+    | _, _ => "BADOP ansi args"
   | "fmt" :: ws => stepFmt ws obs
   | "bits" :: ws => stepBits ws obs
   | "range" :: ws => stepRange ws obs
   | "digits" :: ws => stepDigits ws obs
+  | "digitsrle" :: ws => stepDigitsRLE ws obs
   | "dump" :: ws => stepDump ws obs
   | "tree" :: ws => stepTree ws obs
   | "ntree" :: ws => stepNTree ws obs
